@@ -536,7 +536,17 @@ func (g *GoBackNConn) receivePacketsForever() error { // nolint:gocyclo
 			g.pongTicker.Pause()
 		}
 
-		g.resendTicker.Reset(g.timeoutManager.GetResendTimeout())
+		// Restart the resend ticker only when the peer reacts to the
+		// packets we have sent. If it were restarted on every received
+		// packet, then a steady flow of data or keepalive pings from
+		// the peer, at intervals shorter than the resend timeout, would
+		// prevent a lost packet from ever being resent.
+		switch msg.(type) {
+		case *PacketACK, *PacketNACK:
+			g.resendTicker.Reset(
+				g.timeoutManager.GetResendTimeout(),
+			)
+		}
 
 		switch m := msg.(type) {
 		case *PacketData:
